@@ -154,6 +154,7 @@ def _second_loop_scenario(rng, i):
 fam(ScenarioFamily('second_loop', ('C08',), _second_loop_scenario, 200, 2000))
 fam(ScenarioFamily('gather', ('C04',), gen.gather_scenario, 300, 3000))
 fam(ScenarioFamily('late_on', ('C01', 'C09', 'C11', 'C03'), gen.late_on_scenario, 300, 3000))
+fam(ScenarioFamily('manual_step', ('C06',), gen.manual_step_scenario, 150, 1500))
 fam(EnumFamily('double_cancel_enum', ('C06', 'C10', 'C02'), gen.double_cancel_base, gen.double_cancel_derive, 8, 120, 40, 150))
 fam(EnumFamily('waitfor_enum', ('C15',), gen.waitfor_base, gen.waitfor_derive, 16, 200, 40, 120))
 fam(EnumFamily('timeout_enum', ('C10', 'C08', 'C02', 'C06'), gen.timeout_base, gen.timeout_derive, 24, 250, 40, 150))
@@ -411,6 +412,8 @@ CHECKS['C14'].families.append('stop_enum')  # dispatches (from handlers, forward
 CHECKS['C14'].floors['c14_noloop_dispatches'] = {'quick': 50, 'thorough': 500}
 
 
+CHECKS['C06'].families.append('manual_step')
+CHECKS['C02'].families.append('capacity')  # bursts that fill the bounded queue: order among accepted events, rejected ones aside
 for _p in ('C06', 'C10', 'C02'):
     CHECKS[_p].families.append('double_cancel_enum')  # a second cancellation while the first one is still being cleaned up
 
